@@ -238,6 +238,14 @@ func (b *bmpClient) loop() {
 							var pathList []*table.Path
 							if msg.Init {
 								pathList = msg.PathList
+								if msg.PostPolicy {
+									// Remember what the initial dump reported: a later
+									// withdrawal of one of these routes is only sent when
+									// the route is known to have been sent.
+									for _, p := range msg.PathList {
+										b.ribout.update(p)
+									}
+								}
 							} else {
 								for _, p := range msg.PathList {
 									if b.ribout.update(p) {
